@@ -34,7 +34,7 @@ def run_pipeline(duck, strain, keys, close_mode="structural", explorer=None, cal
     ckeys = [c_(k[1:]) for k in keys]
 
     def fn():
-        with patched((tk, {"numpy": proxy}), (sh, {"numpy": proxy})):
+        with patched((tk, {"numpy": proxy}), (sh, {"numpy": proxy}), (ns, {"numpy": proxy})):
             tl = tk.PhononContributionTaskList(duck)
             tl.resolve(strain, ckeys)
             if not calculate:
@@ -47,6 +47,41 @@ def run_pipeline(duck, strain, keys, close_mode="structural", explorer=None, cal
     if explorer is None:
         return X.run_single_path(fn, name="pipeline"), proxy
     return explorer.run(fn), proxy
+
+
+def run_pipeline_reused(duck, strain_a, strain_b, keys, close_mode="structural"):
+    """One PhononContributionTaskList object used twice: resolve + calculate for strain_a, then for strain_b.  Returns the results read
+    after the second calculation."""
+    tk, sh, ns, c_ = modules()
+    proxy = NumpyProxy()
+    proxy.close_mode = close_mode
+    ckeys = [c_(k[1:]) for k in keys]
+
+    def fn():
+        with patched((tk, {"numpy": proxy}), (sh, {"numpy": proxy}), (ns, {"numpy": proxy})):
+            tl = tk.PhononContributionTaskList(duck)
+            tl.resolve(strain_a, ckeys)
+            tl.calculate()
+            tl.get_isothermal_results()
+            tl.resolve(strain_b, ckeys)
+            tl.calculate()
+            iso = tl.get_isothermal_results()
+            adi = tl.get_adiabatic_results()
+        return dict(tl=tl, iso={"c%d%d" % k.v: v for k, v in iso.items()}, adi={"c%d%d" % k.v: v for k, v in adi.items()})
+    return X.run_single_path(fn, name="pipeline-reused"), proxy
+
+
+def real_pipeline_reused(duck, strain_a, strain_b, keys):
+    tk, sh, ns, c_ = modules()
+    tl = tk.PhononContributionTaskList(duck)
+    ck = [c_(k[1:]) for k in keys]
+    tl.resolve(numpy.asarray(strain_a, dtype=float), ck)
+    tl.calculate()
+    tl.resolve(numpy.asarray(strain_b, dtype=float), ck)
+    tl.calculate()
+    iso = {"c%d%d" % k.v: numpy.asarray(v) for k, v in tl.get_isothermal_results().items()}
+    adi = {"c%d%d" % k.v: numpy.asarray(v) for k, v in tl.get_adiabatic_results().items()}
+    return iso, adi
 
 
 def order_facts(tl):
